@@ -1,146 +1,288 @@
 """C05 - Incremental recalculation equals recalculation from scratch."""
+import json
+import random
+import re
+
 from vlib import histories, snapshot, reload
+from props import C05_mech as mech
 
 LEVEL = 'exploration'
-RULE = ('formula-heavy seeded histories (reference chains, RefList chains, lookups with CONTAINS/order_by, summaries, '
-        'PREVIOUS/NEXT/RANK, cross-table chains) with data edits, removals, type changes, renames, formula changes; every '
-        'few bundles a second engine process is loaded with the metadata and data columns only, recalculates, and its '
-        'snapshot is compared with the live one. A case = one comparison; non-trivial = the live document has >= 3 formula '
-        'columns with >= 1 row; distinct by the multiset of formula texts and table sizes.')
-ASSUMPTIONS = ['volatile / side-effecting formulas are never generated', 'trigger-formula columns are data and are loaded']
-REQUIRED = {'scratch_compares': {'quick': 100, 'thorough': 1500}}
+RULE = ('three seeded history streams drive the real engine: A = generic formula-heavy histories of the schema-aware '
+        'generator (reference chains, RefList chains, lookups with CONTAINS / order_by, summaries, PREVIOUS/NEXT/RANK, '
+        'cross-table chains; data edits, removals, type changes, renames, formula changes, column / table removal); '
+        'B = the same plus ReplaceTableData, upserts and multi-action bundle patterns that touch the same rows / cells / '
+        'columns, with undo (ApplyUndoActions) and redo (ApplyDocActions of the stored actions) of sampled bundles; '
+        'C = the same edits over a dense three-table document built with explicit actions whose formula columns are '
+        'sampled from a pool of the shapes the statement names (Ref / RefList attribute chains, lookups keyed on data '
+        'and on formula columns, CONTAINS, order_by tuples, find.*, SUM($group.col) in summary tables incl. ChoiceList '
+        'and formula group-bys, lookups into summary tables, PREVIOUS/NEXT/RANK incl. a cumulative PREVIOUS chain). '
+        'Every few bundles, and after every sampled undo and redo, a second engine process is loaded with the metadata '
+        'and data columns only (as storage hands them back), recalculates, and its snapshot is compared with the live one. '
+        'A case = one comparison; non-trivial = the live document has >= 3 formula columns with >= 1 row; distinct by the '
+        'multiset of formula texts and table sizes.')
+ASSUMPTIONS = ['volatile / side-effecting formulas (NOW/TODAY/RAND/UUID/REQUEST/PEEK/lookupOrAddDerived) are never generated',
+               'trigger-formula columns are data columns: they are loaded into the scratch engine, not recomputed',
+               'cells whose value in the scratch engine itself depends on the evaluation order (cycles; C06/C18) are not judged',
+               'after a hit of a listed finding the rest of that history is not judged (its state is shaped by the listed defect)']
+REQUIRED = {'scratch_compares': {'quick': 250, 'thorough': 1500},
+            'compares_after_undo': {'quick': 20, 'thorough': 150},
+            'compares_after_redo': {'quick': 20, 'thorough': 150},
+            'dense_histories': {'quick': 6, 'thorough': 24}}
+SHARD_TIMEOUT = {'quick': 600, 'thorough': 3000}
 
 WEIGHTS = {'add_formula_column': 12, 'modify_formula': 6, 'add_ref_column': 5, 'create_summary': 4, 'update_records': 20,
            'add_records': 14, 'remove_records': 8, 'modify_type': 5, 'rename_column': 4, 'remove_column': 3, 'invalid': 1,
            'add_view': 0.2, 'create_section': 0.3, 'add_acl': 0, 'add_trigger': 0, 'add_filter': 0}
+FLAGS = {'bundle_multi': 0.25, 'max_rows': 10, 'formula_off': ('self_ref', 'cycle', 'list_keys')}
+
+# Stream B: bundles in which several actions touch the same rows / cells / columns, ReplaceTableData, upserts.
+WEIGHTS_B = dict(WEIGHTS, replace_data=1.5, upsert=2, to_formula=1.5, to_data=1.5)
+FLAGS_B = dict(FLAGS, patterns=0.35, invalid_off=('bad_type', 'short_bulk'))
+
+# Stream C: edits over the dense document (few new tables / columns, many data and schema edits of what is there).
+WEIGHTS_C = {'update_records': 26, 'add_records': 10, 'remove_records': 9, 'replace_data': 1.2, 'upsert': 1,
+             'modify_type': 5, 'rename_column': 4, 'rename_table': 1.5, 'modify_formula': 4, 'remove_column': 2.5,
+             'remove_table': 0.5, 'to_formula': 1, 'to_data': 1.2, 'add_formula_column': 4, 'add_ref_column': 1,
+             'add_data_column': 1, 'add_table': 0.5, 'create_summary': 1.5, 'update_summary': 1, 'detach_summary': 0.2,
+             'remove_section': 0.3, 'duplicate_table': 0.2, 'invalid': 1, 'add_trigger_column': 0.5,
+             'add_view': 0.1, 'create_section': 0.1, 'add_acl': 0, 'add_trigger': 0, 'add_filter': 0}
+FLAGS_C = dict(FLAGS, max_rows=12, max_cols=30, patterns=0.2, invalid_off=('bad_type', 'short_bulk'))
+
+WITNESSES = ['self_lookup_cycle', 'new_table_name', 'summary_error_keys', 'lookup_error_key', 'removed_sort_column',
+             'missing_lookup_column']
+
 
 def plan(tier, seed):
-  n, steps = (16, 45) if tier == 'quick' else (160, 80)
-  return [{'witness': 'self_lookup_cycle'}, {'witness': 'new_table_name'}, {'witness': 'summary_error_keys'}] + \
-         [{'hseed': seed * 100003 + 5000 + i, 'steps': steps, 'every': 4} for i in range(n)]
+  if tier == 'quick':
+    na, sa, nb, sb, nc, sc = 16, 45, 8, 40, 8, 40
+  else:
+    na, sa, nb, sb, nc, sc = 64, 80, 40, 60, 48, 60
+  return [{'witness': w} for w in WITNESSES] + \
+         [{'hseed': seed * 100003 + 5000 + i, 'steps': sa, 'every': 4} for i in range(na)] + \
+         [{'hseed': seed * 100003 + 20000 + i, 'steps': sb, 'every': 4, 'stream': 'B', 'undo_every': 5} for i in range(nb)] + \
+         [{'hseed': seed * 100003 + 40000 + i, 'steps': sc, 'every': 4, 'stream': 'C', 'undo_every': 5} for i in range(nc)]
 
 
-def has_cycle_error(snap_a, snap_b, d):
-  """True iff some differing cell holds a CircularRefError on either side."""
-  for t in set(snap_a) & set(snap_b):
-    for c in set(snap_a[t][1]) & set(snap_b[t][1]):
-      for x, y in zip(snap_a[t][1][c], snap_b[t][1][c]):
-        if x != y:
-          for v in (x, y):
-            if isinstance(v, list) and len(v) > 1 and v[0] == 'E' and v[1] == 'CircularRefError':
-              return True
-  return False
-
-
-def only_live_nameerror(S, F):
-  """True iff every differing cell holds a NameError on one side (the live engine did not re-evaluate
-  a formula when a table name it mentions appeared or disappeared)."""
-  n = 0
-  for t in set(S) & set(F):
-    for c in set(S[t][1]) & set(F[t][1]):
-      for x, y in zip(S[t][1][c], F[t][1][c]):
-        if x != y:
-          n += 1
-          if not any(isinstance(v, list) and len(v) > 1 and v[0] == 'E' and v[1] == 'NameError' for v in (x, y)):
-            return False
-  return n > 0
-
-
-def only_summaries_with_error_keys(S, F):
-  """True iff S and F differ only in summary tables one of whose group-by source columns holds an
-  error value in some row (how error cells group is outside the summary statement; the live engine
-  keeps the old summary rows, a fresh one has none)."""
-  T = snapshot.rows_of(S, '_grist_Tables')
-  C = snapshot.rows_of(S, '_grist_Tables_column')
-  excused = set()
-  for tr, t in T.items():
-    if not t['summarySourceTable'] or t['summarySourceTable'] not in T:
-      continue
-    src = T[t['summarySourceTable']]['tableId']
-    for c in C.values():
-      if c['parentId'] == tr and c['summarySourceCol'] and c['summarySourceCol'] in C:
-        sc = C[c['summarySourceCol']]['colId']
-        if src in S and sc in S[src][1] and any(isinstance(v, list) and v and v[0] == 'E' for v in S[src][1][sc]):
-          excused.add(t['tableId'])
-  for tid in set(S) | set(F):
-    if tid in excused:
-      continue
-    if tid not in S or tid not in F or S[tid] != F[tid]:
-      # differences outside the excused summary tables must be formula cells that read them
-      if tid in S and tid in F and S[tid][0] == F[tid][0]:
-        continue
-      return False
-  return bool(excused)
-
-
-def witness_summary_error_keys(acc):
+# --------------------------------------------------------------------------------------- witnesses
+def _witness(acc, key, actions, check=None):
+  """Replays an explicit history, compares live with scratch and reports under `key` while the
+  mechanism classifier attributes the whole difference to that finding."""
   from vlib.client import EngineProc
   with EngineProc() as p:
     p.init_doc()
-    p.apply([['AddTable', 'T', [{'id': 'K', 'type': 'Int', 'isFormula': False}]]])
-    p.apply([['AddColumn', 'T', 'F', {'isFormula': True, 'type': 'Text', 'formula': '"big" if $K > 1 else "small"'}]])
-    p.apply([['BulkAddRecord', 'T', [None, None], {'K': [1, 2]}]])
-    p.apply([['CreateViewSection', 1, 0, 'record', [3], None]])
-    p.apply([['RemoveColumn', 'T', 'K']])
+    for a in actions:
+      p.apply([a])
     S = snapshot.take(p)
     F, _ = reload.scratch_snapshot(p)
     d = snapshot.diff(S, F)
     acc.count('witness_runs')
-    if d and only_summaries_with_error_keys(S, F):
-      acc.violation('summary_rows_with_error_keys', 'witness: %s' % d[:2], {'diff': d})
+    if d:
+      m = mech.classify(S, F)
+      if m == key:
+        acc.violation(key, 'witness: %s' % d[:2], {'diff': d, 'history': actions})
+      else:
+        acc.violation('witness_%s_differs_otherwise' % key, 'witness of %s shows a difference classified as %s: %s' % (key, m, d[:3]),
+                      {'diff': d, 'history': actions})
+
+
+def witness_summary_error_keys(acc):
+  _witness(acc, 'summary_rows_with_error_keys', [
+    ['AddTable', 'T', [{'id': 'K', 'type': 'Int', 'isFormula': False}]],
+    ['AddColumn', 'T', 'F', {'isFormula': True, 'type': 'Text', 'formula': '"big" if $K > 1 else "small"'}],
+    ['BulkAddRecord', 'T', [None, None], {'K': [1, 2]}],
+    ['CreateViewSection', 1, 0, 'record', [3], None],
+    ['RemoveColumn', 'T', 'K']])
 
 
 def witness_new_table_name(acc):
   """Open finding: a formula naming a table that does not exist holds NameError; adding a table of
   that name later does not re-evaluate it (there is no invalidation for new table names)."""
-  from vlib.client import EngineProc
-  with EngineProc() as p:
-    p.init_doc()
-    p.apply([['AddTable', 'T', [{'id': 'K', 'type': 'Int', 'isFormula': False}]]])
-    p.apply([['AddRecord', 'T', None, {'K': 1}]])
-    p.apply([['AddColumn', 'T', 'F', {'isFormula': True, 'type': 'Any', 'formula': 'len(Other.all)'}]])
-    p.apply([['AddTable', 'Other', [{'id': 'A', 'type': 'Int', 'isFormula': False}]]])
-    S = snapshot.take(p)
-    F, _ = reload.scratch_snapshot(p)
-    d = snapshot.diff(S, F)
-    acc.count('witness_runs')
-    if d and only_live_nameerror(S, F):
-      acc.violation('unknown_name_not_reevaluated', 'witness: %s' % d[:2], {'diff': d})
+  _witness(acc, 'unknown_name_not_reevaluated', [
+    ['AddTable', 'T', [{'id': 'K', 'type': 'Int', 'isFormula': False}]],
+    ['AddRecord', 'T', None, {'K': 1}],
+    ['AddColumn', 'T', 'F', {'isFormula': True, 'type': 'Any', 'formula': 'len(Other.all)'}],
+    ['AddTable', 'Other', [{'id': 'A', 'type': 'Int', 'isFormula': False}]]])
 
 
 def witness_self_lookup_cycle(acc):
   """Open finding: a formula that looks records up by its own column (a cycle through the lookup
   index). A fresh engine reports CircularRefError in every row; incrementally, rows added later
   get a value instead."""
-  from vlib.client import EngineProc
-  with EngineProc() as p:
-    p.init_doc()
-    p.apply([['AddTable', 'T', [{'id': 'K', 'type': 'Int', 'isFormula': False}]]])
-    p.apply([['BulkAddRecord', 'T', [None, None], {'K': [1, 2]}]])
-    p.apply([['AddColumn', 'T', 'B', {'isFormula': True, 'type': 'Text', 'formula': 'T.lookupOne(B=$K).K'}]])
-    p.apply([['BulkAddRecord', 'T', [None, None], {'K': [1, 2]}]])
-    S = snapshot.take(p)
-    F, _ = reload.scratch_snapshot(p)
-    d = snapshot.diff(S, F)
-    acc.count('witness_runs')
-    if d and has_cycle_error(S, F, d):
-      acc.violation('cycle_detection_incremental_vs_scratch', 'witness: %s' % d[:2], {'diff': d})
+  _witness(acc, 'cycle_detection_incremental_vs_scratch', [
+    ['AddTable', 'T', [{'id': 'K', 'type': 'Int', 'isFormula': False}]],
+    ['BulkAddRecord', 'T', [None, None], {'K': [1, 2]}],
+    ['AddColumn', 'T', 'B', {'isFormula': True, 'type': 'Text', 'formula': 'T.lookupOne(B=$K).K'}],
+    ['BulkAddRecord', 'T', [None, None], {'K': [1, 2]}]])
+
+
+def witness_lookup_error_key(acc):
+  """Open finding: a record whose lookup key cell turns into an error stays in the lookup index under
+  the key it had before (LookupMapColumn._recalc_rec_method raises before updating the mapping)."""
+  _witness(acc, 'lookup_index_keeps_error_keys', [
+    ['AddTable', 'T', [{'id': 'A', 'type': 'Int', 'isFormula': False},
+                       {'id': 'K', 'type': 'Any', 'isFormula': True, 'formula': '$A if $A < 5 else 1/0'}]],
+    ['AddTable', 'U', [{'id': 'X', 'type': 'Int', 'isFormula': False},
+                       {'id': 'N', 'type': 'Any', 'isFormula': True, 'formula': '[r.id for r in T.lookupRecords(K=$X)]'}]],
+    ['BulkAddRecord', 'T', [None, None, None], {'A': [1, 1, 2]}],
+    ['BulkAddRecord', 'U', [None, None], {'X': [1, 2]}],
+    ['UpdateRecord', 'T', 1, {'A': 7}]])
+
+
+def witness_removed_sort_column(acc):
+  """Open finding: removing a column that a lookup sorts by leaves the sorted lookup helper in use."""
+  _witness(acc, 'removed_lookup_column_keeps_helper', [
+    ['AddTable', 'T', [{'id': 'A', 'type': 'Int', 'isFormula': False}, {'id': 'B', 'type': 'Int', 'isFormula': False}]],
+    ['AddTable', 'U', [{'id': 'X', 'type': 'Int', 'isFormula': False},
+                       {'id': 'N', 'type': 'Any', 'isFormula': True, 'formula': '[r.id for r in T.lookupRecords(B=$X, order_by="A")]'}]],
+    ['BulkAddRecord', 'T', [None, None, None], {'A': [1, 1, 2], 'B': [1, 1, 2]}],
+    ['BulkAddRecord', 'U', [None, None], {'X': [1, 2]}],
+    ['RemoveColumn', 'T', 'A']])
+
+
+def witness_missing_lookup_column(acc):
+  """Open finding: a lookup naming a column that does not exist (KeyError) is not re-evaluated when a
+  column of that name appears."""
+  _witness(acc, 'lookup_of_missing_column_not_reevaluated', [
+    ['AddTable', 'T', [{'id': 'A', 'type': 'Int', 'isFormula': False}, {'id': 'B', 'type': 'Int', 'isFormula': False}]],
+    ['AddTable', 'U', [{'id': 'X', 'type': 'Int', 'isFormula': False},
+                       {'id': 'N', 'type': 'Any', 'isFormula': True, 'formula': '[r.id for r in T.lookupRecords(Z=$X)]'},
+                       {'id': 'R', 'type': 'Any', 'isFormula': True, 'formula': 'RANK(rec, order_by="Z")'}]],
+    ['BulkAddRecord', 'T', [None, None, None], {'A': [1, 1, 2], 'B': [1, 1, 2]}],
+    ['BulkAddRecord', 'U', [None, None], {'X': [1, 2]}],
+    ['RenameColumn', 'T', 'A', 'Z'],
+    ['AddColumn', 'U', 'Z', {'type': 'Int', 'isFormula': False}]])
+
+
+# --------------------------------------------------------------------------------------- coverage
+SHAPES = [
+  ('lookupRecords', re.compile(r'\.lookupRecords\(')),
+  ('lookupOne', re.compile(r'\.lookupOne\(')),
+  ('CONTAINS', re.compile(r'CONTAINS\(')),
+  ('order_by', re.compile(r'(order_by|sort_by)\s*=')),
+  ('find', re.compile(r'\.find\.(lt|le|gt|ge|eq)\(')),
+  ('group', re.compile(r'\$group|rec\.group')),
+  ('SUM_group', re.compile(r'SUM\([^)]*\$group')),
+  ('PREVIOUS', re.compile(r'\bPREVIOUS\(')),
+  ('NEXT', re.compile(r'\bNEXT\(')),
+  ('RANK', re.compile(r'\bRANK\(')),
+  ('table_all', re.compile(r'\b[A-Za-z_][A-Za-z0-9_]*\.all\b')),
+]
+DOLLAR_CHAIN = re.compile(r'(?:\$|\brec\.)([A-Za-z_][A-Za-z0-9_]*)((?:\.[A-Za-z_][A-Za-z0-9_]*)+)')
+
+
+def shapes_present(S):
+  """Shape tags of the formula columns (of tables with >= 1 row) of the live document."""
+  doc = mech.Doc(S)
+  out = set()
+  for (t, c), info in doc.cols.items():
+    if not info['isFormula'] or t.startswith('_grist_') or not S.get(t, ([],))[0] or c == 'group':
+      continue
+    f = info['formula']
+    for tag, rx in SHAPES:
+      if rx.search(f):
+        out.add(tag)
+    for mo in DOLLAR_CHAIN.finditer(f):
+      typ = doc.cols.get((t, mo.group(1)), {}).get('type', '')
+      depth = mo.group(2).count('.')
+      if typ.startswith('Ref:'):
+        out.add('ref_chain' if depth == 1 else 'ref_chain_2plus')
+      elif typ.startswith('RefList:'):
+        out.add('reflist_chain' if depth == 1 else 'reflist_chain_2plus')
+    others = [o for o in doc.tables if o != t and not o.startswith('_grist_') and re.search(r'\b%s\.' % re.escape(o), f)]
+    if others:
+      out.add('cross_table')
+      if any(o in doc.summary_of for o in others):
+        out.add('lookup_into_summary_table')
+    if t in doc.summary_of:
+      out.add('summary_table_formula')
+  return out
+
+
+def edit_kinds(bundle):
+  out = []
+  for a in bundle:
+    if not isinstance(a, list) or not a:
+      continue
+    k = a[0]
+    if k == 'ModifyColumn' and len(a) > 3 and isinstance(a[3], dict):
+      for f in ('type', 'formula', 'isFormula'):
+        if f in a[3]:
+          out.append('ModifyColumn:' + f)
+    if k in ('UpdateRecord', 'BulkUpdateRecord', 'AddRecord', 'RemoveRecord') and len(a) > 1 and str(a[1]).startswith('_grist_'):
+      k = k + ':meta'
+    out.append(k)
+  return out
+
+
+# --------------------------------------------------------------------------------------- the monitor
+ORDER_SEEDS = (1, 2, 3, 4)
 
 
 class ScratchMonitor(histories.Monitor):
-  def __init__(self, every):
+  def __init__(self, every, undo_every=0, seed=0):
     self.every = every
+    self.undo_every = undo_every
+    self.MUTATES = bool(undo_every)
+    self.rnd = random.Random(seed * 7919 + 17)
     self.n = 0
+    self.stopped = False
+    self.pending_kinds = set()
 
-  def compare(self, h, ctx):
+  # -- evaluation-order dependence of the scratch result itself (C06 / C18 territory)
+  def order_dependent_mask(self, h, F):
+    """Loads the scratch engine again under permuted work-item orders. Returns (tables whose row sets
+    vary, {(table, col, row index)} of cells whose value varies), or None if nothing varies."""
+    vt, vc = set(), set()
+    for s in ORDER_SEEDS:
+      try:
+        G, _ = reload.scratch_snapshot(h.proc, order_seed=s)
+      except Exception:      # pylint: disable=broad-except
+        continue
+      h.acc.count('scratch_loads_under_permuted_order')
+      for t in set(F) | set(G):
+        if t not in F or t not in G or F[t][0] != G[t][0] or set(F[t][1]) != set(G[t][1]):
+          vt.add(t)
+          continue
+        for c in F[t][1]:
+          if F[t][1][c] != G[t][1][c]:
+            for i, (x, y) in enumerate(zip(F[t][1][c], G[t][1][c])):
+              if x != y:
+                vc.add((t, c, i))
+    return (vt, vc) if (vt or vc) else None
+
+  @staticmethod
+  def masked(S, vt, vc):
+    out = {}
+    for t, (rows, cols) in S.items():
+      if t in vt:
+        continue
+      cc = {}
+      for c, vals in cols.items():
+        vals = list(vals)
+        for i in range(len(vals)):
+          if (t, c, i) in vc:
+            vals[i] = '#order-dependent#'
+        cc[c] = vals
+      out[t] = (rows, cc)
+    return out
+
+  def compare(self, h, S, what):
     acc = h.acc
+    if self.stopped:
+      acc.count('compares_skipped_after_known_finding')
+      return
     try:
       F, reply = reload.scratch_snapshot(h.proc)
     except Exception as e:      # pylint: disable=broad-except
       h.violation('scratch_load_raises', 'loading a fresh engine from the reported data raised %r' % (e,), {})
       return
     acc.count('scratch_compares')
-    S = ctx.S1
+    acc.count('compares_' + what)
+    for tag in shapes_present(S):
+      acc.count('compared_with.' + tag)
+    for k in self.pending_kinds:
+      acc.count('edits_before_compare.' + k)
+    self.pending_kinds = set()
     d = snapshot.diff(S, F, maxn=8)
     fcols = histories.formula_cols(S)
     nform = len([1 for (t, c) in fcols if not t.startswith('_grist_') and t in S and S[t][0]])
@@ -151,27 +293,174 @@ class ScratchMonitor(histories.Monitor):
                                  sorted(len(S[t][0]) for t in S if not t.startswith('_grist_')))
     acc.case(sig, {'formulas': sorted(set(c['formula'] for c in snapshot.rows_of(S, '_grist_Tables_column').values() if c['formula']))[:12]} if sig else None)
     if d:
+      self.judge(h, S, F, d, what)
+
+  def judge(self, h, S, F, d, what):
+    acc = h.acc
+    m = mech.classify(S, F)
+    note = ''
+    if m is None:
+      # Not a listed mechanism. Is the scratch value of the differing cells defined at all, or does
+      # it depend on the evaluation order (then the case belongs to C06 / C18, not here)?
+      mask = self.order_dependent_mask(h, F)
+      if mask:
+        acc.count('compares_with_order_dependent_scratch_cells')
+        S2, F2 = self.masked(S, *mask), self.masked(F, *mask)
+        d2 = snapshot.diff(S2, F2, maxn=8)
+        if not d2:
+          acc.count('diffs_attributed_to_evaluation_order_C06_C18')
+          return
+        m = mech.classify(S2, F2)
+        d = d2
+        note = ' (cells whose scratch value depends on the evaluation order left out)'
+    if m is None:
       kind, _ = histories.trace_kind(S, F)
-      mech = 'incremental_vs_scratch' if kind == 'formula_cells' else 'scratch_data_differs'
-      if kind == 'formula_cells' and has_cycle_error(S, F, d):
-        mech = 'cycle_detection_incremental_vs_scratch'
-      elif kind == 'formula_cells' and only_live_nameerror(S, F):
-        mech = 'unknown_name_not_reevaluated'
-      elif kind == 'data' and only_summaries_with_error_keys(S, F):
-        mech = 'summary_rows_with_error_keys'
-      h.violation(mech, 'live formula values differ from a fresh engine recalculating the same data: %s' % d[:3],
-                  {'diff': d, 'bundle': ctx.bundle})
+      m = 'incremental_vs_scratch' if kind == 'formula_cells' else 'scratch_data_differs'
+    else:
+      # The rest of this history runs on a state shaped by a listed defect: not judged any further.
+      self.stopped = True
+      acc.count('histories_not_judged_further_after_known_finding')
+    h.violation(m, 'live formula values (%s) differ from a fresh engine recalculating the same data%s: %s' % (what, note, d[:3]),
+                {'diff': d, 'when': what})
 
   def after_bundle(self, h, ctx):
     self.n += 1
+    self.pending_kinds.update(edit_kinds(ctx.bundle) if ctx.err is None else [])
     if self.n % self.every == 0 or ctx.step == h.steps - 1:
-      self.compare(h, ctx)
+      self.compare(h, ctx.S1, 'after_bundle')
+    r = ctx.reply
+    if not self.undo_every or r is None or not (r.stored or r.undo) or self.stopped:
+      return
+    if self.rnd.random() * self.undo_every >= 1:
+      return
+    ur, err = h.apply([['ApplyUndoActions', json.loads(json.dumps(r.undo))]], 'undo')
+    if err is not None:
+      h.acc.count('undo_raised_C01_territory')
+      return
+    self.pending_kinds.add('ApplyUndoActions')
+    self.compare(h, h.snap(), 'after_undo')
+    rr, err = h.apply([['ApplyDocActions', json.loads(json.dumps(r.stored))]], 'redo')
+    if err is not None:
+      h.acc.count('redo_raised_C03_territory')
+      return
+    self.pending_kinds.add('ApplyDocActions')
+    self.compare(h, h.snap(), 'after_redo')
+
+
+# --------------------------------------------------------------------------------------- dense document (stream C)
+def _f(formula, typ='Any'):
+  return {'isFormula': True, 'type': typ, 'formula': formula}
+
+ALWAYS = [
+  ('People', 'DeptCode', _f('$Dept.Code')),
+  ('Depts', 'Size', _f('len(People.lookupRecords(Dept=$id))')),
+  ('Orders', 'WhoDept', _f('$Who.Dept.Code')),
+]
+POOL = [
+  ('People', 'BossDept', _f('$Boss.Dept.Code')),
+  ('People', 'BossBossAge', _f('$Boss.Boss.Age')),
+  ('People', 'NOrders', _f('len(Orders.lookupRecords(Who=$id))')),
+  ('People', 'Spent', _f('SUM(Orders.lookupRecords(Who=$id).Amount)')),
+  ('People', 'Top', _f('[o.id for o in Orders.lookupRecords(Who=$id, order_by="-Amount")]')),
+  ('People', 'First', _f('Orders.lookupOne(Who=$id, order_by=("Kind", "-N")).Amount')),
+  ('People', 'SameTag', _f('[p.id for p in People.lookupRecords(Tags=CONTAINS($Name))]')),
+  ('People', 'Tagged2', _f('len(People.lookupRecords(Tags=CONTAINS($Name, match_empty="")))')),
+  ('People', 'InDepts', _f('[d.id for d in Depts.lookupRecords(Members=CONTAINS($id))]')),
+  ('People', 'AgeRank', _f('RANK(rec, group_by="Dept", order_by="Age")')),
+  ('People', 'Older', _f('NEXT(rec, order_by="Age").id')),
+  ('People', 'Prev', _f('PREVIOUS(rec, group_by="Dept", order_by=("Age", "id")).Name')),
+  ('People', 'DeptSize', _f('$Dept.Size')),
+  ('People', 'Peers', _f('[p.id for p in People.lookupRecords(DeptCode=$DeptCode, order_by="Age")]')),
+  ('Depts', 'Ages', _f('$Members.Age')),
+  ('Depts', 'SumAges', _f('SUM(a for a in $Members.Age if isinstance(a, (int, float)))')),
+  ('Depts', 'MemberDepts', _f('list($Members.Dept.Code)')),
+  ('Depts', 'HeadAge', _f('$Head.Age')),
+  ('Depts', 'HeadBoss', _f('$Head.Boss.Name')),
+  ('Depts', 'Payroll', _f('SUM(p.Spent for p in People.lookupRecords(Dept=$id))')),
+  ('Depts', 'ByCode', _f('[p.id for p in People.lookupRecords(DeptCode=$Code)]')),
+  ('Depts', 'Biggest', _f('Orders.lookupRecords(order_by="Amount").find.le($Budget).id')),
+  ('Depts', 'Oldest', _f('People.lookupOne(Dept=$id, order_by="-Age").Name')),
+  ('Orders', 'WhoBudget', _f('$Who.Dept.Budget')),
+  ('Orders', 'Rank', _f('RANK(rec, group_by="Kind", order_by="Amount", order="desc")')),
+  ('Orders', 'PrevAmt', _f('PREVIOUS(rec, group_by="Who", order_by="N").Amount')),
+  ('Orders', 'Cum', _f('(PREVIOUS(rec, group_by="Kind", order_by=("N", "id")).Cum or 0) + ($Amount if isinstance($Amount, (int, float)) else 0)')),
+  ('Orders', 'KindTotal', _f('Orders_summary_Kind.lookupOne(Kind=$Kind).Total')),
+  ('Orders', 'NAll', _f('len(Orders.all)')),
+  ('Orders', 'SameKind', _f('[o.id for o in Orders.lookupRecords(Kind=$Kind, sort_by="-N")]')),
+  ('Orders', 'WhoSpent', _f('$Who.Spent')),
+  ('Orders', 'Next', _f('NEXT(rec, group_by="Who", order_by=("Amount", "-id")).id')),
+]
+SUMMARIES = [      # (source table, [group-by columns], [(col id, formula)])
+  ('Orders', ['Kind'], [('Total', 'SUM($group.Amount)'), ('MaxN', 'MAX([n for n in $group.N if isinstance(n, int)] or [0])')]),
+  ('Orders', ['Who'], [('Total', 'SUM($group.Amount)'), ('Kinds', 'sorted(set(k for k in $group.Kind if isinstance(k, str)))')]),
+  ('People', ['Dept'], [('SumAge', 'SUM($group.Age)'), ('Names', '[p.Name for p in $group]')]),
+  ('People', ['Tags'], [('SumAge', 'SUM($group.Age)')]),
+  ('People', ['DeptCode'], [('N', 'len($group)'), ('Heads', '[d.id for d in Depts.lookupRecords(Code=$DeptCode)]')]),
+  ('Orders', ['Kind', 'Who'], [('Total', 'SUM($group.Amount)')]),
+  ('Orders', [], [('Grand', 'SUM($group.Amount)'), ('N', 'len($group)')]),
+]
+
+
+def setup_dense(h):
+  """Builds the dense document of stream C with explicit user actions (logged like every bundle)."""
+  r = random.Random(h.seed * 31 + 5)
+  def do(*actions):
+    reply, err = h.apply([list(a) for a in json.loads(json.dumps(actions))], 'setup')
+    if err is not None:
+      raise RuntimeError('dense setup failed: %s' % err.text[:300])
+    return reply
+  do(['AddTable', 'People', [{'id': 'Name', 'type': 'Text', 'isFormula': False}, {'id': 'Age', 'type': 'Int', 'isFormula': False},
+                             {'id': 'Tags', 'type': 'ChoiceList', 'isFormula': False}]])
+  do(['AddTable', 'Depts', [{'id': 'Code', 'type': 'Text', 'isFormula': False}, {'id': 'Budget', 'type': 'Numeric', 'isFormula': False},
+                            {'id': 'Head', 'type': 'Ref:People', 'isFormula': False}, {'id': 'Members', 'type': 'RefList:People', 'isFormula': False}]])
+  do(['AddColumn', 'People', 'Dept', {'type': 'Ref:Depts', 'isFormula': False}],
+     ['AddColumn', 'People', 'Boss', {'type': 'Ref:People', 'isFormula': False}])
+  do(['AddTable', 'Orders', [{'id': 'Who', 'type': 'Ref:People', 'isFormula': False}, {'id': 'Amount', 'type': 'Numeric', 'isFormula': False},
+                             {'id': 'Kind', 'type': 'Choice', 'isFormula': False}, {'id': 'N', 'type': 'Int', 'isFormula': False}]])
+  np_, nd, no = 6, 3, 8
+  do(['BulkAddRecord', 'People', [None] * np_, {
+        'Name': [r.choice(['a', 'b', 'c', 'x', 'y']) for _ in range(np_)], 'Age': [r.randint(-2, 5) for _ in range(np_)],
+        'Tags': [r.choice([None, ['L', 'a'], ['L', 'a', 'b'], ['L', 'b', 'c'], ['L', 'x']]) for _ in range(np_)],
+        'Dept': [r.randint(0, nd) for _ in range(np_)], 'Boss': [r.randint(0, np_) for _ in range(np_)]}])
+  do(['BulkAddRecord', 'Depts', [None] * nd, {
+        'Code': [r.choice(['a', 'b', 'c']) for _ in range(nd)], 'Budget': [r.choice([0, 1, 1.5, 3, 1e3]) for _ in range(nd)],
+        'Head': [r.randint(0, np_) for _ in range(nd)],
+        'Members': [(['L'] + r.sample(range(1, np_ + 1), r.randint(1, 3))) if r.random() < 0.8 else None for _ in range(nd)]}])
+  do(['BulkAddRecord', 'Orders', [None] * no, {
+        'Who': [r.randint(0, np_) for _ in range(no)], 'Amount': [r.choice([0, 1, 1.5, -2.25, 3, 1e3]) for _ in range(no)],
+        'Kind': [r.choice(['a', 'b', 'c', '']) for _ in range(no)], 'N': [r.randint(-2, 5) for _ in range(no)]}])
+  for (t, c, info) in ALWAYS:
+    do(['AddColumn', t, c, info])
+  S = h.snap()
+  doc = mech.Doc(S)
+  T = snapshot.rows_of(S, '_grist_Tables')
+  C = snapshot.rows_of(S, '_grist_Tables_column')
+  tref = {t['tableId']: ref for ref, t in T.items()}
+  cref = {(T[c['parentId']]['tableId'], c['colId']): ref for ref, c in C.items() if c['parentId'] in T}
+  for (src, gb, cols) in r.sample(SUMMARIES, 4):
+    do(['CreateViewSection', tref[src], 0, 'record', [cref[(src, g)] for g in gb], None])
+    st = '%s_summary%s' % (src, ''.join('_' + g for g in sorted(gb)))
+    for (c, f) in cols:
+      do(['AddColumn', st, c, _f(f)])
+    h.acc.count('dense_summary_tables')
+  for (t, c, info) in r.sample(POOL, 14):
+    do(['AddColumn', t, c, info])
+  h.acc.count('dense_histories')
 
 
 def run_shard(spec, acc):
   if spec.get('witness'):
     return globals()['witness_' + spec['witness']](acc)
-  h = histories.History(acc, spec['hseed'], [ScratchMonitor(spec.get('every', 4))], spec['steps'], weights=WEIGHTS,
-                        flags={'bundle_multi': 0.25, 'max_rows': 10, 'formula_off': ('self_ref', 'cycle', 'list_keys')},
-                        avoid_open_triggers=False)
+  mon = ScratchMonitor(spec.get('every', 4), spec.get('undo_every', 0), spec['hseed'])
+  stream = spec.get('stream', 'A')
+  acc.count('histories_stream_' + stream)
+  if stream == 'B':
+    h = histories.History(acc, spec['hseed'], [mon], spec['steps'], weights=WEIGHTS_B, flags=FLAGS_B, avoid_open_triggers=False)
+  elif stream == 'C':
+    h = histories.History(acc, spec['hseed'], [mon], spec['steps'], weights=WEIGHTS_C, flags=FLAGS_C, avoid_open_triggers=False,
+                          setup=setup_dense)
+  else:
+    h = histories.History(acc, spec['hseed'], [mon], spec['steps'], weights=WEIGHTS, flags=FLAGS, avoid_open_triggers=False)
   h.run()
+  for k, v in getattr(h.gen, 'pattern_counts', {}).items():
+    acc.count('pattern.' + k, v)
